@@ -14,7 +14,17 @@ impl DetectProp for C09 {
     }
     fn slice(&self, o: &Outcome) -> String {
         match o {
-            Outcome::Ok(v) => format!("ok {}", sorted_join(v.iter().flat_map(|m| m.cands().into_iter().map(move |e| format!("{}:{}", e, entry_sig(m)))).collect())),
+            Outcome::Ok(v) => format!(
+                "ok {}",
+                sorted_join(
+                    v.iter()
+                        .flat_map(|m| {
+                            // the main entry with its own verdict, every alternative with the verdict the alternative itself carries
+                            std::iter::once(format!("{}:{}", m.enc, entry_sig(m))).chain(m.subs.iter().zip(m.subd.iter()).map(|(e, d)| format!("{}:{}", e, d)))
+                        })
+                        .collect()
+                )
+            ),
             other => other.show(),
         }
     }
@@ -39,6 +49,9 @@ impl DetectProp for C09 {
         }
         if idx % 3 == 2 {
             c = similar_rejection_case(rng);
+        }
+        if idx % 6 == 3 {
+            c = shared_high_bytes_case(rng);
         }
         c
     }
